@@ -45,7 +45,12 @@ How Python values are represented (the representation is the trusted part):
 
 Accepted subset (anything else raises TranslateError with file:line):
 
-  statements  x = e;  x += e / x -= e on ints;  c = Counter();  c[k] = e, c[k] += e on such a
+  statements  x = e (scalars, and read-only containers: a grammar entry, a next_letter dict, the
+              grammar, ln_lookup, the scorer's tables);  x = P for a container P of the keyspace
+              cache, once per name: an alias of the PATH (keys captured at the binding; the dict
+              objects of the cache are created where missing and never replaced, so reads and
+              writes through the alias are reads and writes through the path);
+              x += e / x -= e on ints;  c = Counter();  c[k] = e, c[k] += e on such a
               counter;  P[k] = {} on a cache path, only directly under `if k not in P:` (so a
               container is created where missing and never replaced);  P[len][lvl] = e and
               P[len][lvl] += e on the cache (`+=` reads the old value BEFORE the right-hand
@@ -67,8 +72,9 @@ Accepted subset (anything else raises TranslateError with file:line):
 
 What the translation does NOT model: exceptions other than KeyError / IndexError (a
 TypeError from the str '10' in OmenScorer.ln[0] cannot arise once ngram >= 1), object
-identity (dict objects are reachable through one path only: aliasing a container or the
-counter is refused), termination (fuel: [mwhile] and the recursion raise the pseudo
+identity (the counter and a cache container newly created by `= {}` are reachable through one
+path only: aliasing the counter is refused, an alias of an existing cache container is a name
+for its path, see above), termination (fuel: [mwhile] and the recursion raise the pseudo
 exception OutOfFuel; the equalities are proved for all fuel above the password / table
 length), stdout (print), and rebinding of the translated functions from another module.
 """
@@ -105,7 +111,11 @@ class Ty:
 INT, BOOL, STR, CHAR = Ty("int"), Ty("bool"), Ty("str"), Ty("char")
 TRAINER, SCORER, COUNTER, KC = Ty("trainer"), Ty("scorer"), Ty("counter"), Ty("kc")
 LINFO = Ty("linfo")            # a (level, count) tuple, only [0] modelled: nat
-VALUE_KINDS = ("int", "bool", "str", "char", "entry", "linfo")     # what a local may hold
+# what a local may hold: scalars, and the containers the translated functions only READ (the tables of the
+# trainer / scorer record are immutable here: no store into them is in the accepted subset, so a local
+# alias of one of them is just a name for that value).  The one mutable structure, the keyspace cache, is
+# different: see FunctionTranslator.alias
+VALUE_KINDS = ("int", "bool", "str", "char", "entry", "linfo", "next", "grammar", "lnlist", "sdict", "sln")
 COQ_TYPE = {"int": "Z", "str": "ostr", "trainer": "ttab", "scorer": "scorer", "counter": "counter"}
 
 SPECS = [
@@ -122,7 +132,7 @@ SPECS = [
 ]
 
 RESERVED = set("""fuel fuel' kc tt true false nil Some None Z N Ok Raise catch KeyError dict_get zlen pyslice pyindex
-zrange zenumerate mfor mwhile Continue Return cnt_get cnt_set kc_get3 kc_mem1 kc_mem2 kc_mem3 kc_set1 kc_set2
+zrange zenumerate mfor mwhile Continue Return cnt_get cnt_set kc_get1 kc_get2 kc_get3 kc_mem1 kc_mem2 kc_mem3 kc_set1 kc_set2
 kc_set3 sc_ngramZ find_entry find_letter first_level te_key te_ip te_ep te_next tt_ngram tt_min_len tt_max_len
 tt_grammar tt_ln sc_ip sc_cp sc_ln negb
 fun let in if then else match with end forall exists Type Prop Set SProp as at return fix cofix struct where using
@@ -658,7 +668,7 @@ class FunctionTranslator:
         old = env.types.get(name)
         if old is not None and old.kind != ty.kind:
             self.fail(node, "%r changes its type from %s to %s" % (name, old.kind, ty.kind))
-        if old is not None and old.kind in ("trainer", "scorer", "counter", "kc"):
+        if old is not None and old.kind in ("trainer", "scorer", "counter", "kc", "kcpath", "aliaskey"):
             self.fail(node, "%r is rebound" % name)
         env.types[name] = ty
 
@@ -689,7 +699,11 @@ class FunctionTranslator:
                     self.fail(s, "%r is rebound to a counter" % t.id)
                 self.bind(s, t.id, COUNTER, env)
                 return self.line(ind, "let %s := @nil (Z * Z) in" % t.id, s)
-            text, ty = self.value(v, env)
+            text, ty = self.expr(v, env)
+            if ty.kind == "kcpath":
+                return self.alias(s, t.id, ty, env, ind)
+            if ty.kind not in VALUE_KINDS:
+                self.fail(v, "a value of type %s cannot be bound to a variable" % ty.kind)
             self.bind(s, t.id, ty, env)
             return self.flush(ind, s, "let %s := %s in" % (t.id, text))
         if isinstance(t, ast.Subscript):
@@ -713,6 +727,28 @@ class FunctionTranslator:
                 self.fail(s, "a count is stored where the cache holds a dict")
             return self.flush(ind, s, "kc <- kc_set3 kc %s %s ;;" % (" ".join(_paren(x) for x in keys), _paren(val)))
         self.fail(s, "unsupported assignment target")
+
+    def alias(self, s, name, ty, env, ind):
+        """x = P for a cache container P (grammar[ip]['keyspace_cache'] or ...[length]).  The dict object
+        at a path of the cache is created once (`if k not in P: P[k] = {}`, enforced) and never replaced,
+        so a name bound to it is a name for the PATH: the key values are captured at the binding
+        (later rebinding of the variables they came from does not matter), reads and writes through the
+        name are reads and writes through the path.  The binding itself evaluates the path, which raises
+        KeyError when a container on the way is missing.  The name may be bound only once."""
+        if name in env.types:
+            self.fail(s, "%r is rebound to a cache container (an alias may be bound once)" % name)
+        self.check_name(s, name)
+        keys = ["%s_key%d" % (name, i) for i in range(len(ty.keys))]
+        for k in keys:
+            self.check_name(s, k)
+            if k in env.types:
+                self.fail(s, "the variable name %r collides with the generated code" % k)
+        self.emit("%s <- kc_get%d kc %s ;;" % (self.tmp(), len(ty.keys), " ".join(_paren(x) for x in ty.keys)))
+        for k, text in zip(keys, ty.keys):
+            self.emit("let %s := %s in" % (k, text))
+            env.types[k] = Ty("aliaskey")
+        env.types[name] = Ty("kcpath", keys=keys)
+        return self.flush(ind, s, None)
 
     def augassign(self, s, env, ind):
         if not isinstance(s.op, (ast.Add, ast.Sub)):
@@ -794,6 +830,9 @@ class FunctionTranslator:
         names = [n for n in self.assigned(body + orelse, env) if n in env.types]
         if not names:
             self.fail(s, "conditional without effect")
+        for n in names:
+            if env.types[n].kind in ("trainer", "scorer", "kcpath", "aliaskey"):
+                self.fail(s, "%r is rebound in the conditional" % n)
         tup, pat = self.state_text(names)
         join = K(lambda _n: "Ok %s" % tup, lambda n: self.fail(n, "continue"), lambda n, t, ty: self.fail(n, "return"))
         out = self.flush(ind, s, "%s <- (if %s then" % (pat, c))
@@ -812,7 +851,7 @@ class FunctionTranslator:
     def loop_state(self, s, env):
         names = [n for n in self.assigned(s.body, env) if n in env.types]
         for n in names:
-            if env.types[n].kind in ("trainer", "scorer"):
+            if env.types[n].kind in ("trainer", "scorer", "kcpath", "aliaskey"):
                 self.fail(s, "%r is rebound in the loop" % n)
         return names
 
